@@ -281,6 +281,8 @@ def _sig_ok(want, got):
             return isinstance(got, str) and re.search(want["regex"], got) is not None
         if "any_of" in want:
             return got in want["any_of"]
+        if "intersects" in want:
+            return isinstance(got, (list, tuple)) and any(x in want["intersects"] for x in got)
         return False
     if isinstance(want, list):
         return got in want
